@@ -263,7 +263,7 @@ def run_case(case):
         if state_kind == "lostdisk":
             scen.wipe_disk(a, rng.choice(a.disks))
         if state_kind == "lostparity":
-            scen.damage_parity_file(rng.choice(a.all_parity_paths()), rng, rng.choice(["delete", "flips", "zero"]))
+            scen.damage_parity_file(rng.choice(a.all_parity_paths()), rng, rng.choice(["delete", "delete", "delete", "flips", "zero"]))
         ncmd = 8 if tier == "quick" else 16
         cmds = rng.sample(CMDS, ncmd)
         musts = [("touch", []), ("pool", [])]
@@ -272,11 +272,14 @@ def run_case(case):
             # opened but not finished)
             musts.append(("fix", ["-S", rng.choice(["0", "RS"]), "-B", "RB"]))
             musts.append(("fix", ["-S", "0", "-B", "RB_CUT"]))
+        if state_kind == "lostparity":
+            # data-only fixes while a parity file is missing: the excluded parity must not be touched (nor re-created)
+            musts.append(("fix", list(rng.choice([["-d", "DISK"], ["-m"], ["-f", "*a*"]]))))
         for must in musts:
             if must not in cmds:
                 cmds.append(must)
         # mutating commands last so that read-only ones see the interesting state
-        cmds.sort(key=lambda c_: 0 if c_[0] in READONLY else (0.5 if "RB_CUT" in c_[1] else (1 if c_[0] in ("pool", "scrub", "touch", "rehash") else 2)))
+        cmds.sort(key=lambda c_: 0 if c_[0] in READONLY else (0.5 if ("RB_CUT" in c_[1] or (state_kind == "lostparity" and c_[0] == "fix" and c_[1][:1] in (["-d"], ["-m"], ["-f"]) and c_[1] != ["-d", "parity"])) else (1 if c_[0] in ("pool", "scrub", "touch", "rehash") else 2)))
         for cmd, args0 in cmds:
             disk = a.disk_names[rng.choice(a.disks)]
             try:
@@ -319,6 +322,13 @@ def run_case(case):
                 if cls not in allowed:
                     res["violations"].append(("%s-modifies-%s" % (cmd, cls), "%s: %s %r (%s -> %s)" % (label, what, p, x, y), rep))
             # ---- command specific rules
+            if cmd == "fix" and (("-d" in args and not args[args.index("-d") + 1].endswith("parity")) or "-f" in args or "-m" in args):
+                # the filter excludes every parity level: no parity file may change, appear or disappear
+                for (cls, k, p, what, x, y) in changed:
+                    if cls == "parity":
+                        res["violations"].append(("fix-touches-parity-excluded-by-its-filter", "%s: %s %r (%s -> %s)" %
+                                                  (label, what, p, x[:2] if x else None, y[:2] if y else None), rep))
+                        break
             if cmd == "fix":
                 named = fixed_paths(r)
                 # inodes of the named files after the run: another name of the same inode (hard link) changes with it
